@@ -29,6 +29,7 @@ import json
 import os
 import random
 import re
+import threading
 import time
 import zlib
 
@@ -54,6 +55,41 @@ MUTANTS = {"nofirst": "InvOffsets", "left": "InvBackfill", "counted": "InvOffset
 MODEL_ACTIONS = ("Pick", "SortTracks", "CountTracks", "Rekey")
 
 
+_start_lock = threading.Lock()
+
+
+def _tlc(*a, **kw):
+    """vlib.tlc from several threads: its -metadir name comes from a counter that is incremented and read
+    without a lock, so two calls that start at the same moment can share (and delete) one directory.
+    The starts are therefore spaced out here; the runs themselves overlap."""
+    box = {}
+
+    def run():
+        try:
+            box["r"] = vlib.tlc(*a, **kw)
+        except BaseException as ex:      # re-raised in the caller's thread
+            box["e"] = ex
+
+    with _start_lock:
+        t = threading.Thread(target=run)
+        t.start()
+        time.sleep(0.4)
+    t.join()
+    if "e" in box:
+        raise box["e"]
+    return box["r"]
+
+
+def _validate(path, timeout=2400, heap="4g"):
+    """Trace validation (vlib.validate_trace through _tlc).  Returns (accepted, TlcResult)."""
+    r = _tlc("TrackSortTrace", "TrackSortTrace", workers=1, env={"TRACE": path}, timeout=timeout, heap=heap)
+    if r.code == 0:
+        return True, r
+    if "REJECTED" in r.out or r.violated:
+        return False, r
+    raise vlib.Broken("trace validation of %s failed to run (exit %d):\n%s" % (path, r.code, r.out[-4000:]))
+
+
 def _summary(out):
     m = re.search(r'<<"SUMMARY", "(.*)">>', out)
     if not m:
@@ -75,7 +111,7 @@ def _design(ctx, quick):
     for m in muts:
         jobs.append(dict(module="TrackSortMC", cfg="TrackSortMC_mut_" + m, workers=1, timeout=900, heap="3g",
                          expect_ok=True))
-    res = vlib.tlc_parallel(jobs, maxpar=1)        # (the check keeps its total parallelism <= 4)
+    res = [_tlc(**j) for j in jobs]                # sequential: the check keeps its total parallelism <= 4
     nmain = 1 if quick else 2
     out = {"runs": []}
     for j, r in zip(jobs[:nmain], res[:nmain]):
@@ -105,7 +141,7 @@ def _design(ctx, quick):
 # ------------------------------------------------------------------------------- replay
 def _emit(ctx, name, kind, m=0, lo=0, hi=0):
     path = ctx.path("emit_%s.ndjson" % name)
-    r = vlib.tlc("TrackSortMC", "TrackSortMC_emit", workers=1, timeout=2400, heap="6g", expect_ok=True,
+    r = _tlc("TrackSortMC", "TrackSortMC_emit", workers=1, timeout=2400, heap="6g", expect_ok=True,
                  env={"KIND": kind, "M": m, "LO": lo, "HI": hi, "OUT": path})
     mm = re.search(r'<<"CASES", (\d+)>>', r.out)
     if not r.ok or not mm:
@@ -153,7 +189,7 @@ def _replay_shard(ctx, name, recs):
             inp, h.returncode, (h.stderr or "")[-1200:])
         return res
     t1 = time.time()
-    ok, tr = vlib.validate_trace("TrackSortTrace", "TrackSortTrace", outp, timeout=2400, heap="4g")
+    ok, tr = _validate(outp)
     res["tlc_s"] = time.time() - t1
     res["summary"] = _summary(tr.out)
     if not ok:
@@ -229,7 +265,7 @@ def _objects(ctx, quick):
                     out.write(fh.read())
     harness_s = time.time() - t0
     t1 = time.time()
-    ok, tr = vlib.validate_trace("TrackSortTrace", "TrackSortTrace", allp, timeout=2400, heap="4g")
+    ok, tr = _validate(allp)
     return {"path": allp, "ok": ok, "tr": tr, "summary": _summary(tr.out), "crashes": crashes, "runs": runs,
             "harness_s": harness_s, "tlc_s": time.time() - t1, "ntraces": len(parts)}
 
@@ -263,7 +299,7 @@ def run(ctx):
     q = ctx.quick
     if getattr(ctx, "replay", None):
         path = os.path.abspath(ctx.replay)
-        ok, tr = vlib.validate_trace("TrackSortTrace", "TrackSortTrace", path, timeout=2400)
+        ok, tr = _validate(path)
         s = _summary(tr.out) or {}
         print(json.dumps(s, indent=1)[:4000])
         if not ok:
